@@ -18,7 +18,7 @@ import common
 LEVEL = 'proof'
 LEANCHECKER = True
 RULE = ("cases are (rows, n, variant) with every band i=0..n-1 loaded through the real load_image_band from a real "
-        "FITS file; variant in {2d, 3d, 4d, bscale, compressed}; non-trivial = n >= 2 and rows not a multiple of n "
+        "FITS file (two working file names rewritten for every case); variant in {2d, 3d, 4d, bscale, compressed, and *-ext = image in HDU 1 behind an empty or decoy primary}; non-trivial = n >= 2 and rows not a multiple of n "
         "(so the cut points need rounding) or an invalid band specification; distinct by (rows, n, variant)")
 ASSUMPTIONS = [
     "astropy.io.fits reads back what it wrote; astropy.wcs implements the FITS WCS papers (used only to compare sky "
@@ -34,21 +34,48 @@ HEADER = dict(CTYPE1='RA---SIN', CTYPE2='DEC--SIN', CRVAL1=30.0, CRVAL2=-20.0, C
               CRPIX1=2.0, CRPIX2=5.0)
 
 
+PREV = {}         # case -> the two cases run just before it (the same working file name was last used two cases ago)
+EXT_VARIANTS = ('2d-ext', '3d-ext', '4d-ext', '4d-extdecoy', 'bscale-ext')
+_file_counter = [0]
+
+
+def base_variant(variant):
+    return variant.split('-')[0]
+
+
 def make_file(ctx, rows, variant):
+    """Write the test image.  File NAMES are re-used (two working names, rewritten for every case) so
+    that anything the implementation remembers about a file name from an earlier call in this process
+    (a cached header, shape, …) is stale for the next case: the result must depend on the file's
+    current content only.  `*-ext` variants put the image in HDU 1 (hdu_index=1) behind a primary HDU
+    that is empty, or (`4d-extdecoy`) holds a decoy image of the same dimensionality."""
     from astropy.io import fits
     img = (np.arange(rows * COLS, dtype=np.float32).reshape(rows, COLS))
+    base = base_variant(variant)
     data = img
-    if variant == '3d':
+    if base == '3d':
         data = np.stack([img + 1000000, img])          # cube_index=1 is the plane under test
-    elif variant == '4d':
+    elif base == '4d':
         data = np.stack([img + 1000000, img])[None]
-    hdu = fits.PrimaryHDU(data)
+    ext = variant in EXT_VARIANTS
+    hdu = (fits.ImageHDU if ext else fits.PrimaryHDU)(data)
     for k, v in HEADER.items():
         hdu.header[k] = v
-    if variant == 'bscale':
+    if base == 'bscale':
         hdu.header['BSCALE'] = 2.0     # written raw; load_image_band multiplies
-    path = os.path.join(ctx.tmpdir(), f'img_{rows}_{variant}.fits')
-    hdul = fits.HDUList([hdu])
+    _file_counter[0] += 1
+    path = os.path.join(ctx.tmpdir(), f'work{_file_counter[0] % 2}.fits')
+    if ext:
+        if variant == '4d-extdecoy':
+            prim = fits.PrimaryHDU((data + 5000000).astype(np.float32))
+            for k, v in HEADER.items():
+                prim.header[k] = v
+            prim.header['CRPIX2'] = 77.0
+        else:
+            prim = fits.PrimaryHDU()
+        hdul = fits.HDUList([prim, hdu])
+    else:
+        hdul = fits.HDUList([hdu])
     if variant == 'compressed':
         from AegeanTools import fits_tools
         hdul = fits_tools.compress(hdul, 2, None)
@@ -57,14 +84,15 @@ def make_file(ctx, rows, variant):
 
 
 def full_reference(path, variant, img):
-    """the full image as the band loader should see it, and its header"""
+    """the full image as the band loader should see it (built from what was written, not read back
+    through the code under test), and its header (read with astropy)"""
     from astropy.io import fits
     from AegeanTools import fits_tools
     if variant == 'compressed':
         h = fits_tools.expand(path)
         return np.array(h[0].data), h[0].header
-    hdr = fits.getheader(path)
-    if variant == 'bscale':
+    hdr = fits.getheader(path, ext=1 if variant in EXT_VARIANTS else 0)
+    if base_variant(variant) == 'bscale':
         return img * 2.0, hdr
     return img, hdr
 
@@ -72,29 +100,25 @@ def full_reference(path, variant, img):
 def load_all(ctx, rows, n, variant, cache):
     """call the implementation for every band; return list of per-band observations"""
     from AegeanTools import fits_tools
-    key = (rows, variant)
-    if key not in cache:
-        path, img = make_file(ctx, rows, variant)
-        full, fhdr = full_reference(path, variant, img)
-        cache[key] = (path, full, fhdr)
-    path, full, fhdr = cache[key]
+    path, img = make_file(ctx, rows, variant)
+    full, fhdr = full_reference(path, variant, img)
     obs = []
     for i in range(n):
-        kw = dict(cube_index=1) if variant in ('3d', '4d') else {}
-        if variant == 'bscale':
-            # do_not_scale_image_data leaves raw values; file stores raw = img, header BSCALE = 2
-            pass
+        kw = dict(cube_index=1) if base_variant(variant) in ('3d', '4d') else {}
+        if variant in EXT_VARIANTS:
+            kw['hdu_index'] = 1
         data, hdr = fits_tools.load_image_band(path, band=(i, n), **kw)
         data = np.array(data)
         lo_hdr = fhdr['CRPIX2'] - hdr['CRPIX2']
-        obs.append(dict(i=i, nrows=int(data.shape[0]), naxis2=int(hdr['NAXIS2']), lo_hdr=float(lo_hdr),
-                        data=data, hdr=hdr))
+        bad_shape = data.ndim != 2 or (data.ndim == 2 and data.shape[1] != COLS)
+        obs.append(dict(i=i, nrows=int(data.shape[0]) if data.ndim >= 1 else 0, naxis2=int(hdr['NAXIS2']),
+                        lo_hdr=float(lo_hdr), data=data, hdr=hdr, bad_shape=bad_shape, shape=tuple(data.shape)))
     return obs, full, fhdr
 
 
 def judge(ctx, rows, n, variant, obs, full, fhdr, model_lines, spec_line, check_wcs):
     """compare one (rows, n, variant) with the model and the Spec; returns True if all fine"""
-    case = dict(rows=rows, n=n, variant=variant)
+    case = dict(rows=rows, n=n, variant=variant, history=[list(h) for h in PREV.get((rows, n, variant), [])])
     ok = True
     ranges = []
     for o, ml in zip(obs, model_lines):
@@ -112,7 +136,9 @@ def judge(ctx, rows, n, variant, obs, full, fhdr, model_lines, spec_line, check_
         m_lo = -m_shift
         # --- Spec-level facts about the implementation's own output ---
         spec_bad = None
-        if abs(o['lo_hdr'] - lo) > 1e-9:
+        if o.get('bad_shape'):
+            spec_bad = f"band has shape {o['shape']}, expected (rows, {COLS})"
+        elif abs(o['lo_hdr'] - lo) > 1e-9:
             spec_bad = f"CRPIX2 shift {o['lo_hdr']} is not an integer row offset"
         elif o['naxis2'] != o['nrows']:
             spec_bad = f"header NAXIS2={o['naxis2']} but the band has {o['nrows']} rows"
@@ -151,14 +177,20 @@ def judge(ctx, rows, n, variant, obs, full, fhdr, model_lines, spec_line, check_
     return ok
 
 
+HISTORY = []      # the (rows, n, variant) cases run so far in this process, oldest first
+
+
 def run_cases(ctx, cases, check_wcs_every=7):
     cache = {}
     lines, meta = [], []
     for k, (rows, n, variant) in enumerate(cases):
+        HISTORY.append((rows, n, variant))
+        PREV[(rows, n, variant)] = list(HISTORY[-3:-1])
         try:
             obs, full, fhdr = load_all(ctx, rows, n, variant, cache)
         except Exception as e:  # the implementation raised on a valid band
-            ctx.fail('spec', dict(rows=rows, n=n, variant=variant), f"load_image_band raised {type(e).__name__}: {e}",
+            ctx.fail('spec', dict(rows=rows, n=n, variant=variant, history=[list(h) for h in PREV.get((rows, n, variant), [])]),
+                     f"load_image_band raised {type(e).__name__}: {e}",
                      dict(site='load_image_band', what='raises-on-valid-band', variant=variant))
             ctx.case(dict(rows=rows, n=n, variant=variant))
             continue
@@ -227,7 +259,9 @@ def invalid_cases(ctx):
         ctx.case(case, nontrivial_key=('band', i, n) if want_spec == 'err' else None)
 
 
-CORPUS = [(1, 49, '2d'), (5, 64, '2d'), (47, 3, 'compressed'), (7, 7, '2d'), (9, 4, 'bscale'), (100, 49, '2d')]
+CORPUS = [(1, 49, '2d'), (5, 64, '2d'), (47, 3, 'compressed'), (7, 7, '2d'), (9, 4, 'bscale'), (100, 49, '2d'),
+          (12, 3, '2d'), (9, 3, '2d'), (12, 5, '2d'), (9, 2, '4d-ext'), (9, 2, '4d-extdecoy'), (7, 5, '3d-ext'),
+          (6, 4, '2d-ext'), (8, 3, 'bscale-ext'), (7, 5, '3d'), (7, 9, '4d')]
 
 
 def case_set(ctx, wide):
@@ -236,13 +270,13 @@ def case_set(ctx, wide):
     if not wide:
         cases += [(rows, n, '2d') for rows in range(1, 25) for n in range(1, 25) if (rows + n) % 3 == ctx.seed % 3 or rows < 6]
         for _ in range(60):
-            cases.append((rng.randint(1, 400), rng.randint(1, 64), rng.choice(['2d', '3d', '4d', 'bscale', 'compressed'])))
-        for v in ['3d', '4d', 'bscale', 'compressed']:
+            cases.append((rng.randint(1, 400), rng.randint(1, 64), rng.choice(['2d', '3d', '4d', 'bscale', 'compressed', '2d-ext', '3d-ext', '4d-ext', '4d-extdecoy', 'bscale-ext'])))
+        for v in ['3d', '4d', 'bscale', 'compressed', '2d-ext', '3d-ext', '4d-ext', '4d-extdecoy']:
             cases += [(rows, n, v) for rows, n in [(2, 2), (5, 3), (13, 5), (31, 7)]]
     else:
         cases += [(rows, n, '2d') for rows in range(1, 65) for n in range(1, 65)]
         for _ in range(600):
-            cases.append((rng.randint(1, 20000), rng.randint(1, 64), rng.choice(['2d', '2d', '3d', '4d', 'bscale', 'compressed'])))
+            cases.append((rng.randint(1, 20000), rng.randint(1, 64), rng.choice(['2d', '2d', '3d', '4d', 'bscale', 'compressed', '2d-ext', '3d-ext', '4d-ext', '4d-extdecoy', 'bscale-ext'])))
     # compressed needs >= 2 rows (compress() itself requires a 2-D image with >= 1 cell)
     return [(r, n, v) if not (v == 'compressed' and r < 4) else (r + 4, n, v) for r, n, v in cases]
 
@@ -275,4 +309,6 @@ def replay(ctx, rec):
     if 'band' in c:
         invalid_cases(ctx)
     else:
-        run_cases(ctx, [(c['rows'], c['n'], c.get('variant', '2d'))], check_wcs_every=1)
+        # re-create the state of the two working files: the cases that ran just before the failing one
+        hist = [tuple(h) for h in c.get('history', [])]
+        run_cases(ctx, hist + [(c['rows'], c['n'], c.get('variant', '2d'))], check_wcs_every=1)
